@@ -55,13 +55,13 @@ theorem text_narrow_fits (g : Grid) (a : Attrs) (c : Nat) (row : Row) (cell : Ce
     intro ⟨h, h2⟩; exact hnc ⟨by simpa using h, h2⟩
   have hc1 : 1 ≤ g.size.cols := by omega
   have hlim : ¬ g.pos.col > g.size.cols - 1 := by omega
-  simp only [Grid.text, Bool.and_eq_true, decide_eq_true_eq, h1, ↓reduceIte, hw, subM_ok hc1, ok_bind,
-    pure_bind', pure_eq_ok, hlim, Grid.colWrap, show ¬ (1 > g.size.cols) by omega]
-  simp only [show (1 == 0) = false by rfl, Bool.false_eq_true, ↓reduceIte, Grid.textWide,
-    Grid.drawingCellM, Grid.drawingCell, Grid.drawingRow, hrow, Option.bind_some, Row.get, hcell,
-    ok_bind, pure_bind', Cell.isWideContinuation, hcc, Cell.isWide, hcw, Grid.modifyCellM, modifyM,
-    cell_set_spec W cell c a hl, pure_eq_ok, Grid.colInc, satAddU16, U16_MAX,
-    show ¬ (1 > 1) by omega]
+  have h1' : ((W c).isNone && decide (c < 256)) = false := by
+    cases hn : (W c).isNone <;> simp_all
+  simp only [Grid.text, h1', Bool.false_eq_true, ↓reduceIte, hw, show ¬ (1 > g.size.cols) by omega,
+    Grid.wrapDecision, subM_ok hc1, ok_bind, hlim, pure_bind', pure_eq_ok, Grid.colWrap]
+  simp only [show (1 == 0) = false by rfl, Bool.false_eq_true, ↓reduceIte, Grid.textWide, Grid.modifyCurrentRow,
+    modifyM, hrow, Grid.textWideRow, getM, hcell, ok_bind, pure_bind', Cell.isWideContinuation, hcc, Cell.isWide,
+    hcw, cell_set_spec W cell c a hl, pure_eq_ok, Grid.colInc, satAddU16, U16_MAX, show ¬ (1 > 1) by omega]
   simp [hw]
 
 end Vt.C05
